@@ -23,6 +23,7 @@ EXPLANATION = (
     "identical and the module's own lists are permutations. (forward_reference) the 'classes of the current module seen "
     "so far' lookup for list[A, B] / set[A, B]. Engine K (shared with C11): the path matcher against segment-suffix "
     "semantics."
+    " (typevar_state) real mypy trees of a fixed eight-module corpus walked by ONE visitor in the orders [unrelated, m], [m, unrelated], [u, m, u'] and a same-module swap: the type variables recorded per function equal those of its signature in every arrangement."
 )
 ASSUMPTIONS = [
     "influence through mypy's own cross-module inference is outside the claim (mypy is not encodable): not applicable",
